@@ -69,7 +69,7 @@ func checkC12(p *Prog, r *Report) {
 		var claim *ssa.Lookup
 		for _, d := range dels {
 			for _, lk := range lookups {
-				if Path(lk.Index) == Path(d.Call.Args[1]) && len(ls.CommonSections(lk, d)) > 0 {
+				if Path(lk.Index) == Path(d.Call.Args[1]) && sharesGuardSection(ls, pend, lk, d) {
 					okClaim = true
 					claim = lk
 				}
@@ -497,7 +497,10 @@ func claimRule(p *Prog, ls *Lockset, ib *inbound, r *Report, rule string) {
 		var claim *ssa.Lookup
 		for _, d := range dels {
 			for _, lk := range lookups {
-				if Path(lk.Index) == Path(d.Call.Args[1]) && len(ls.CommonSections(lk, d)) > 0 {
+				if debugEnv("SPINEDEBUG_CLAIM") {
+					fmt.Printf("CLAIM %s: lookup@%s held=%v ; delete@%s held=%v ; common=%v\n", FnName(fn), p.InstrPos(lk), ls.At(lk), p.InstrPos(d), ls.At(d), ls.CommonSections(lk, d))
+				}
+				if Path(lk.Index) == Path(d.Call.Args[1]) && sharesGuardSection(ls, pend, lk, d) {
 					okClaim = true
 					claim = lk
 				}
@@ -693,4 +696,17 @@ func c12RefusalOnlyByRole(p *Prog, r *Report, rule string) {
 		}
 	}
 	r.Floor(rule, "error returns of AddWriteApprovalCallback", n, 1)
+}
+
+// sharesGuardSection: a and b lie in one uninterrupted critical section of the lock that guards the field (the lock
+// the other parties of the protocol take) — a section of some other lock that happens to span both does not make
+// the pair atomic for them.
+func sharesGuardSection(ls *Lockset, key string, a, b ssa.Instruction) bool {
+	g := guardOfField(ls, key)
+	for _, lp := range ls.CommonSections(a, b) {
+		if g == "" || lastComp(lp) == g {
+			return true
+		}
+	}
+	return false
 }
